@@ -3,11 +3,22 @@ From Coq Require Import QArith List String.
 From Rooc Require Import Model.StatusMap Base.XQ Model.Exp Model.Bounds Model.Linearize Cert.LP Cert.Bridge Cert.Solution.
 Import ListNotations.
 
-(* rooc's own labelling logic never mislabels what the search reported: optimal only when proven within the gap,
-   merely feasible for an incumbent, an error (never a solution) when stopped before any feasible point or when the
-   options are invalid *)
-Theorem C15_wrap_never_mislabels : forall r : raw, labelling_ok r (wrap r).
+(* rooc's own labelling logic never mislabels what the search reported: optimal only when proven AND, under a positive
+   requested gap, the reported value (constant term included) is within that gap of the proven bound; merely feasible
+   for an incumbent; an error (never a solution) when stopped before any feasible point or when the options are invalid *)
+Theorem C15_wrap_never_mislabels : forall (r : raw) (ob : obs), labelling_ok r ob (wrap r ob).
 Proof. exact wrap_never_mislabels. Qed.
+(* against the true optimum: the proven bound and the reported value bracket it, so a result labelled optimal under a
+   positive gap g is within g * max(|value|, 1e-10) of it *)
+Theorem C15_optimal_label_within_gap_of_optimum :
+  forall (r : raw) (ob : obs) (g b opt : Q),
+  wrap r ob = OutOptimal -> r = RawOptimal -> o_gap ob = Some g -> (0 < g)%Q -> o_bound ob = Some b ->
+  ((b <= opt <= o_value ob)%Q \/ (o_value ob <= opt <= b)%Q) ->
+  (Qabs.Qabs (o_value ob - opt) <= gap_room g (o_value ob))%Q.
+Proof. exact optimal_label_within_gap_of_optimum. Qed.
+Example C15_relabel_example :   (* value 3, bound 1 (constant -3 included), gap 1/2: outside -> feasible; bound 2: inside -> optimal *)
+  wrap RawOptimal (mkObs (Some (1#2)%Q) 3%Q (Some 1%Q)) = OutFeasible /\ wrap RawOptimal (mkObs (Some (1#2)%Q) 3%Q (Some 2%Q)) = OutOptimal.
+Proof. split; vm_compute; reflexivity. Qed.
 
 (* every returned point goes through the verified feasibility checker of C04 *)
 Theorem C15_returned_points_feasible :
@@ -22,4 +33,5 @@ Theorem C15_returned_points_feasible :
 Proof. exact check_solution_sound. Qed.
 
 Print Assumptions C15_wrap_never_mislabels.
+Print Assumptions C15_optimal_label_within_gap_of_optimum.
 Print Assumptions C15_returned_points_feasible.
